@@ -240,6 +240,8 @@ structure Ext where
   continuous : List GoJob := []
   /-- `config.Server.MaxConnections` -/
   maxConnections : Int := 0
+  /-- `readFile.totalLineCount()` where the translation does not follow the statistics -/
+  lineCount : Int := 0
   /-- `config.Server.MaxLineLength` -/
   maxLineLength : Int := 1048576
   /-- whether an operation on the file system fails, given the operations that succeeded before it -/
@@ -248,6 +250,23 @@ structure Ext where
   osStat : GoString → GoFileInfo × GoErr := fun _ => ({}, some [])
   /-- the rendered, ordered rows of `GroupSet.result` (the values of each row) -/
   rowValues : List (List GoString) := []
+
+/-- a buffered channel that one goroutine uses as a bounded queue: its capacity and what it holds, oldest first -/
+structure GoQueue where
+  cap : Int := 0
+  items : List GoString := []
+  deriving Repr, DecidableEq
+
+instance : GoZero GoQueue := ⟨{}⟩
+instance : GoLen GoQueue := ⟨fun q => (q.items.length : Int)⟩
+
+/-- a send would not block -/
+def GoQueue.hasRoom (q : GoQueue) : Bool := decide ((q.items.length : Int) < q.cap)
+/-- a receive would not block -/
+def GoQueue.nonEmpty (q : GoQueue) : Bool := !q.items.isEmpty
+def GoQueue.head (q : GoQueue) : GoString := q.items.headD []
+def GoQueue.pop (q : GoQueue) : GoQueue := { q with items := q.items.tail }
+def GoQueue.push (q : GoQueue) (x : GoString) : GoQueue := { q with items := q.items ++ [x] }
 
 /-- `io.EOF` -/
 def goEOF : GoErr := some [69, 79, 70]
